@@ -1,12 +1,18 @@
 import CharsetProof.Lemmas.F32
 import CharsetProof.Lemmas.Loop
 import CharsetProof.Lemmas.Merge
+import CharsetProof.Lemmas.Ranges
 import CharsetProof.Lemmas.Share
 import CharsetProof.Lemmas.SortSmall
 import CharsetProof.Props.C10
 import CharsetProof.Props.C10b
 import CharsetProof.Props.C10c
+import CharsetProof.Props.C10d
 open Charset
+#print axioms C10_unicode_ranges
+#print axioms C10_unicode_ranges_union
+#print axioms unicodeRangesOf_spec
+#print axioms insertionSort_sorted
 #print axioms C10_languages_current
 #print axioms C10_tied_language
 #print axioms C10_tied_table_now
